@@ -23,6 +23,12 @@ void harness(void) {
 	__CPROVER_assume(n >= 2 && head[0] == _UT(':') && head[1] == _UT(':'));
 	for (i = 2; i < V_K; i++) __CPROVER_assume((head[i] >= _UT('0') && head[i] <= _UT('9')) || head[i] == _UT('.') || head[i] == _UT(']'));
 #endif
+#if V_IP6_MODE == 2
+	/* slice of the input space: group placement in LONG literals - only the digits 1, 2, a, F, the colon and ']'
+	 * (six symbols), up to V_K = 17 characters: reaches '::' followed by seven groups, seven groups followed by '::',
+	 * and the eight-group form with one-digit groups, all out of reach of the unrestricted obligation's bound */
+	for (i = 0; i < V_K; i++) __CPROVER_assume(head[i] == _UT('1') || head[i] == _UT('2') || head[i] == _UT('a') || head[i] == _UT('F') || head[i] == _UT(':') || head[i] == _UT(']'));
+#endif
 	text = malloc((n ? n : 1) * sizeof(URI_CHAR));
 	__CPROVER_assume(text != NULL);
 	for (i = 0; i < V_K; i++) if ((size_t)i < n) text[i] = head[i];
@@ -32,6 +38,9 @@ void harness(void) {
 	u.hostText.first = text;
 	st.uri = &u; st.errorCode = 0; st.errorPos = NULL; st.reserved = NULL;
 	VCOVER(n == V_K && head[0] == _UT(':') && head[1] == _UT(':') && head[V_K - 1] == _UT(']'), "a literal of V_K characters starting with '::'");
+#if V_IP6_MODE == 2
+	VCOVER(n == 16 && head[0] == _UT(':') && head[1] == _UT(':') && head[3] == _UT(':') && head[13] == _UT(':') && head[15] == _UT(']'), "'::' followed by seven one-digit groups");
+#endif
 	VCOVER_END;
 	r = URI_FUNC(ParseIPv6address2)(&st, text, text + n, &vmm);
 	used = spec_ip6(text, n, want);
